@@ -592,6 +592,8 @@ class OpsMixin:
                 r = self.run.rec(cont.oid)
                 if r.concrete:
                     return z3.Or([self.eq(x, y) for y in r.items] or [z3.BoolVal(False)])
+                if r.memfn is not None or (r.mem is not None and r.elem[0] == "tuple"):
+                    return self.list_member_term(r, x)
                 if r.mem is not None:
                     return z3.Select(r.mem, self.term_of(x, r.elem))       # ghost membership set (exact under append)
                 if r.arr is not None:
@@ -735,6 +737,13 @@ class OpsMixin:
             r = run.rec(sym.src.oid)
             g = node.generators[0]
             is_filter = isinstance(node.elt, ast.Name) and isinstance(g.target, ast.Name) and node.elt.id == g.target.id
+            # [(a, b) for a, b in L if f(a, b)]: the same filter written with an unpacked target
+            unpacked_filter = (isinstance(node.elt, ast.Tuple) and isinstance(g.target, ast.Tuple) and r.elem[0] == "tuple" and len(g.ifs) >= 1
+                               and all(isinstance(e_, ast.Name) for e_ in node.elt.elts + g.target.elts)
+                               and [e_.id for e_ in node.elt.elts] == [e_.id for e_ in g.target.elts] and len(g.target.elts) == len(r.elem) - 1
+                               and (r.mem is not None or r.memfn is not None))
+            if unpacked_filter:
+                return self.filtered_tuple_list(node, g, frame, r)
             nm = run.fresh_name(f"{r.sym}#comp")
             n = z3.Int(nm + "#len")
             run.inputs[nm + "#len"] = n
@@ -773,6 +782,51 @@ class OpsMixin:
         return self.new_list(out)
 
     e_GeneratorExp = e_ListComp
+
+    def filtered_tuple_list(self, node, g, frame, r):
+        """[(a, b) for a, b in L if f(a, b)] over a symbolic list of scalar tuples: a sub-sequence of L whose membership is exact --
+        x in result <=> x in L and f(x) -- provided f is a pure comparison of the components (checked: no calls in the filter)"""
+        run = self.run
+        for c in g.ifs:
+            if any(isinstance(x_, (ast.Call, ast.Await, ast.NamedExpr)) for x_ in ast.walk(c)):
+                raise E.Unsupported("filter comprehension with calls over a symbolic tuple list")
+        nm = run.fresh_name(f"{r.sym}#filtered")
+        n = z3.Int(nm + "#len")
+        run.inputs[nm + "#len"] = n
+        run.assume(z3.And(n >= 0, n <= r.length))
+        # the filter is evaluated once on an arbitrary element so that a raising filter is seen
+        probe = self.fresh(r.elem, run.fresh_name(nm + "#probe"))
+        f0 = E.Frame(frame.relpath, frame.ci, {}, frame, frame.fname)
+        self.assign_target(g.target, probe, f0)
+        for c in g.ifs:
+            self.truthy(self.eval(c, f0))
+        src_mem, src_memfn, src_elem = r.mem, r.memfn, r.elem
+        src_len = r.length
+        interp = self
+
+        def memfn(x):
+            x = interp.force(x)
+            if not (isinstance(x, VTuple) and len(x.items) == len(src_elem) - 1):
+                return z3.BoolVal(False) if not isinstance(x, VAny) else z3.Bool(run.fresh_name("mem?"))
+            base = src_memfn(x) if src_memfn is not None else z3.Select(src_mem, interp.inject(x))
+            f2 = E.Frame(frame.relpath, frame.ci, {}, frame, frame.fname)
+            interp.pure += 1
+            try:
+                interp.assign_target(g.target, x, f2)
+                conds = [interp.truthy(interp.eval(c, f2)) for c in g.ifs]
+            finally:
+                interp.pure -= 1
+            return z3.And(base, *conds)
+        nr = ListRec(None, n, r.elem, None, sym=nm)
+        nr.memfn = memfn
+        if src_mem is not None and src_memfn is None:
+            if not hasattr(run, "mem_queried"):
+                run.mem_queried, run.mem_derived = {}, {}
+            run.mem_derived.setdefault(src_mem.get_id(), []).append((memfn, n))
+            for x_ in run.mem_queried.get(src_mem.get_id(), []):
+                run.assume(z3.Implies(memfn(x_), n > 0), persist=True)
+        # an empty source or an all-rejecting filter gives an empty result; nothing else is said about the length
+        return VRef(run.alloc(nr), "list")
 
     def try_symbolic_comp(self, node, frame):
         if len(node.generators) != 1:
